@@ -55,6 +55,7 @@ struct Thr
   int single_count = 0;
   long chunks = 0;
   long local_yields = 0;
+  bool parked = false;
   int prio = 0;
   pthread_t pt;
   bool started = false;
@@ -80,6 +81,7 @@ struct G
   size_t trace_pos = 0;
   long forced_seq = 0;
   int global_lock = 0; // GOMP_atomic_start/end
+  long park_count = 0;
 } g;
 
 thread_local Thr* me = nullptr;
@@ -155,7 +157,8 @@ arm_countdown()
       g.countdown = g.par.rr_k > 0 ? g.par.rr_k : 1;
       break;
     case PCT:
-      g.countdown = g.next_cp < g.change_points.size() ? std::max<long>(1, g.change_points[g.next_cp] - g.st.yields) : (1L << 60);
+      g.countdown = (!g.par.pct_sync && g.next_cp < g.change_points.size()) ? std::max<long>(1, g.change_points[g.next_cp] - g.st.yields)
+                                                                             : (1L << 60);
       break;
     case TRACE:
       {
@@ -181,8 +184,22 @@ runnable_others(Thr* s, Thr** out)
   for (int i = 0; i < t->n; ++i)
     {
       Thr* x = t->members[i];
-      if (x != s && x->st == RUNNABLE)
+      if (x != s && x->st == RUNNABLE && !x->parked)
         out[n++] = x;
+    }
+  if (n == 0)
+    {
+      // only parked threads are left: they are released
+      for (int i = 0; i < t->n; ++i)
+        {
+          Thr* x = t->members[i];
+          if (x->parked)
+            {
+              x->parked = false;
+              if (x != s && x->st == RUNNABLE)
+                out[n++] = x;
+            }
+        }
     }
   return n;
 }
@@ -221,12 +238,25 @@ Thr*
 highest_prio(Thr* s, bool include_self)
 {
   Team* t = g.top;
-  Thr* best = include_self && s->st == RUNNABLE ? s : nullptr;
+  Thr* best = include_self && s->st == RUNNABLE && !s->parked ? s : nullptr;
   for (int i = 0; i < t->n; ++i)
     {
       Thr* x = t->members[i];
-      if (x->st == RUNNABLE && x != s && (!best || x->prio > best->prio))
+      if (x->st == RUNNABLE && !x->parked && x != s && (!best || x->prio > best->prio))
         best = x;
+    }
+  if (!best)
+    {
+      // only parked threads are left: they are released
+      for (int i = 0; i < t->n; ++i)
+        t->members[i]->parked = false;
+      best = include_self && s->st == RUNNABLE ? s : nullptr;
+      for (int i = 0; i < t->n; ++i)
+        {
+          Thr* x = t->members[i];
+          if (x->st == RUNNABLE && x != s && (!best || x->prio > best->prio))
+            best = x;
+        }
     }
   return best;
 }
@@ -355,7 +385,7 @@ decide(Thr* s, const void* site, bool sync)
       }
     case PCT:
       {
-        if (!sync)
+        if (!sync && !g.par.pct_sync)
           {
             // a priority change point: the running thread drops below everybody
             while (g.next_cp < g.change_points.size() && g.change_points[g.next_cp] <= g.st.yields)
@@ -365,6 +395,16 @@ decide(Thr* s, const void* site, bool sync)
               }
             arm_countdown();
           }
+        else if (sync && g.par.pct_sync)
+          {
+            while (g.next_cp < g.change_points.size() && g.change_points[g.next_cp] <= g.st.syncs)
+              {
+                s->prio = g.low_prio--;
+                ++g.next_cp;
+              }
+          }
+        else if (!sync)
+          arm_countdown();
         t = highest_prio(s, true);
         if (t == s)
           t = nullptr;
@@ -384,9 +424,27 @@ decide(Thr* s, const void* site, bool sync)
     switch_to(s, t, false, site);
 }
 
+// see Params::park_event
+inline void
+park_point(Thr* s, int kind, const void* site)
+{
+  if (!g.active || g.par.park_event != kind || g.par.strategy == TRACE)
+    return;
+  if (++g.park_count != g.par.park_k)
+    return;
+  Thr* cand[MAXT];
+  if (runnable_others(s, cand) == 0)
+    return;
+  s->parked = true;
+  ++g.st.parked;
+  forced_switch(s, site);
+}
+
 inline void
 sync_point(Thr* s, const void* site)
 {
+  if (g.in_region)
+    ++g.st.syncs;
   if (!g.active)
     return;
   ++g.st.yields;
@@ -539,6 +597,7 @@ run_region(void (*fn)(void*), void* data, unsigned num_threads, WorkShare* combi
   s->single_count = 0;
   s->chunks = 0;
   s->local_yields = 0; // like the workers': counted per region, so that the decision hash does not depend on the process history
+  s->parked = false;
   s->st = RUNNABLE;
   for (int i = 1; i < n; ++i)
     {
@@ -549,6 +608,7 @@ run_region(void (*fn)(void*), void* data, unsigned num_threads, WorkShare* combi
       w->single_count = 0;
       w->chunks = 0;
       w->local_yields = 0;
+      w->parked = false;
       w->st = RUNNABLE;
       w->wait_obj = nullptr;
       team.members[i] = w;
@@ -639,6 +699,7 @@ acquire(int* w, const void* site)
   s->st = RUNNABLE;
   s->wait_obj = nullptr;
   *w = s->gid + 1;
+  park_point(s, 3, site);
 }
 void
 release(int* w, const void* site)
@@ -655,6 +716,7 @@ release(int* w, const void* site)
         t->members[i]->wait_obj = nullptr;
       }
   sync_point(s, site);
+  park_point(s, 2, site);
 }
 
 void
@@ -743,6 +805,7 @@ next_chunk(WorkShare* w, long* istart, long* iend, const void* site)
   *iend = b;
   ++s->chunks;
   ++g.st.chunks;
+  park_point(s, 4, site);
   return true;
 }
 
@@ -761,10 +824,11 @@ configure(const Params& p)
   g.low_prio = p.pct_d;
   g.trace_pos = 0;
   g.forced_seq = 0;
+  g.park_count = 0;
   if (p.strategy == PCT)
     {
       for (int i = 0; i + 1 < p.pct_d; ++i)
-        g.change_points.push_back(1 + (long)g.rng.below((uint64_t)std::max<long>(1, p.est_yields)));
+        g.change_points.push_back(1 + (long)g.rng.below((uint64_t)std::max<long>(1, p.pct_sync ? 2 * p.est_syncs : p.est_yields)));
       std::sort(g.change_points.begin(), g.change_points.end());
     }
   g.countdown = 1L << 60;
@@ -890,6 +954,7 @@ GOMP_single_start(void)
       t->singles = s->single_count;
       if (s->tid != 0 && g.active)
         ++g.st.single_nonmaster;
+      park_point(s, 1, __builtin_return_address(0));
       return true;
     }
   return false;
